@@ -600,9 +600,9 @@ def rule_default_escape(ck):
 
 
 def run(ck):
-    from ..x_valuewalk import guard_obligations, plain_assignments
+    from ..x_valuewalk import guard_obligations, canonical
 
-    ck.repo = plain_assignments(ck.repo, ['tornado/template.py', 'tornado/escape.py'])
+    ck.repo = canonical(ck.repo, ['tornado/template.py', 'tornado/escape.py'], keep_names=('_DEFAULT_AUTOESCAPE',))
 
     guard_obligations(ck, ['_parse', '_get_ancestors', '_generate_python', '_format_code', '_create_template'])
     ck.rule("C20.escape-before-append", "_Expression.generate: on every path that is neither raw nor autoescape-None the value variable is rebound to <current template's autoescape>(value) after its last other rebinding and before the append line")
